@@ -100,6 +100,8 @@ pub struct Call {
     pub yielded: Vec<(u32, u64, u32)>,
     /// for iter: the call-clock time of each yield
     pub yield_at: Vec<usize>,
+    /// for iter: the number of trace events recorded before each yield
+    pub yield_ix: Vec<usize>,
     pub trace_from: usize,
     pub trace_to: usize,
 }
@@ -156,6 +158,8 @@ type M = HashMap<K, V, TableHasher>;
 static CALL_CLOCK: std::sync::atomic::AtomicU64 = std::sync::atomic::AtomicU64::new(0);
 thread_local! {
     static YIELD_AT: std::cell::RefCell<Vec<usize>> = const { std::cell::RefCell::new(Vec::new()) };
+    /// number of trace events recorded when the iterator yielded (same index as YIELD_AT)
+    static YIELD_IX: std::cell::RefCell<Vec<usize>> = const { std::cell::RefCell::new(Vec::new()) };
 }
 
 fn fmt_v(v: Option<&V>) -> String {
@@ -259,6 +263,7 @@ fn exec(m: &M, op: &COp, pin: bool, yielded: &mut Vec<(u32, u64, u32)>, closure_
             for (k, v) in m.iter(&g) {
                 yielded.push((k.id, v.payload, v.origin));
                 YIELD_AT.with(|y| y.borrow_mut().push(CALL_CLOCK.fetch_add(1, std::sync::atomic::Ordering::SeqCst) as usize));
+                YIELD_IX.with(|y| y.borrow_mut().push(crate::types::TRACE_POS.load(std::sync::atomic::Ordering::Relaxed) as usize));
             }
             format!("{}", yielded.len())
         }
@@ -557,11 +562,13 @@ pub fn run_conc(case: &ConcCase, record_all: bool, budget: usize) -> ConcResult 
                     let mut yielded = vec![];
                     let mut cc = 0u32;
                     YIELD_AT.with(|y| y.borrow_mut().clear());
+                    YIELD_IX.with(|y| y.borrow_mut().clear());
                     let result = exec(&map2, op, pin, &mut yielded, &mut cc);
                     let resp = CALL_CLOCK.fetch_add(1, std::sync::atomic::Ordering::SeqCst) as usize;
                     let trace_to = s3.trace_len();
                     let yield_at = YIELD_AT.with(|y| std::mem::take(&mut *y.borrow_mut()));
-                    calls2.lock().unwrap().push(Call { tid, idx, op: op.clone(), inv, resp, result, closure_calls: cc, yielded, yield_at, trace_from, trace_to });
+                    let yield_ix = YIELD_IX.with(|y| std::mem::take(&mut *y.borrow_mut()));
+                    calls2.lock().unwrap().push(Call { tid, idx, op: op.clone(), inv, resp, result, closure_calls: cc, yielded, yield_at, yield_ix, trace_from, trace_to });
                 }
             });
         }));
@@ -990,7 +997,7 @@ pub fn judge(case: &ConcCase, r: &ConcResult) -> Verdicts {
         if matches!(c.op, COp::Iter | COp::FrozenIter) {
             for (i, y) in c.yielded.iter().enumerate() {
                 let at = c.yield_at.get(i).copied().unwrap_or(c.resp);
-                all_calls.push(Call { op: COp::Yielded(y.0), result: format!("some {} {}", y.1, y.2), resp: at, yielded: vec![], yield_at: vec![], ..c.clone() });
+                all_calls.push(Call { op: COp::Yielded(y.0), result: format!("some {} {}", y.1, y.2), resp: at, yielded: vec![], yield_at: vec![], yield_ix: vec![], ..c.clone() });
             }
         }
     }
@@ -1372,6 +1379,50 @@ pub fn abs_points(case: &ConcCase, r: &ConcResult) -> (Vec<String>, usize, usize
                     if read { "a read" } else { "the call never changed what a lookup finds" },
                     states.iter().map(|s| fmt(*s)).collect::<Vec<_>>().join(", ")
                 ));
+            }
+        }
+    }
+    // C07 on the real structure: (a) every pair an iterator yields is what a lookup of that key would
+    // have found at some moment between the iterator's creation and the yield; (b) a key whose
+    // content did not change during the whole iteration and was present is yielded exactly once
+    // (with that value), one that was absent throughout is not yielded. "Did not change" is read off
+    // the witnessed changes, so calls that overlap the iteration without an effect do not excuse it.
+    for c in r.calls.iter().filter(|c| matches!(c.op, COp::Iter)) {
+        if c.yield_ix.len() != c.yielded.len() {
+            continue;
+        }
+        for (y, &yix) in c.yielded.iter().zip(c.yield_ix.iter()) {
+            let states = during(y.0, c.trace_from, yix.max(c.trace_from));
+            if !states.contains(&Some((y.1, y.2))) {
+                f.push(format!(
+                    "[abs-iter] the iteration of t{} [{}..{}] yielded key {} with value ({}, {}), which a lookup would not have found at any moment between the iterator's creation and that yield (states of the key in that interval: {})",
+                    c.tid, c.inv, c.resp, y.0, y.1, y.2, states.iter().map(|s| fmt(*s)).collect::<Vec<_>>().join(", ")
+                ));
+            }
+        }
+        let mut keys: std::collections::BTreeSet<u32> = r.abs_init.keys().copied().collect();
+        keys.extend(r.abs_changes.iter().map(|ch| ch.key));
+        keys.extend(c.yielded.iter().map(|y| y.0));
+        for k in keys {
+            let states = during(k, c.trace_from, c.trace_to);
+            if states.len() != 1 {
+                continue; // touched during the iteration
+            }
+            let n = c.yielded.iter().filter(|y| y.0 == k).count();
+            match states[0] {
+                Some((p, o)) => {
+                    if n != 1 || !c.yielded.contains(&(k, p, o)) {
+                        f.push(format!(
+                            "[abs-iter] key {} held ({}, {}) and nothing changed what a lookup of it finds during the whole iteration of t{} [{}..{}], but the iterator yielded it {} time(s): {:?}",
+                            k, p, o, c.tid, c.inv, c.resp, n, c.yielded.iter().filter(|y| y.0 == k).collect::<Vec<_>>()
+                        ));
+                    }
+                }
+                None => {
+                    if n != 0 {
+                        f.push(format!("[abs-iter] key {} was absent during the whole iteration of t{} [{}..{}] but was yielded", k, c.tid, c.inv, c.resp));
+                    }
+                }
             }
         }
     }
